@@ -203,6 +203,9 @@ package language
 //@ func evalIn
 //@   partial
 //@   ensures[C06] Undef(val) && !typeis(result, "*Error") ==> IsF(result)
+// C09 / C16: every operand of the list is evaluated (and so checked: identifier expected, reserved words, unknown
+// placeholders) before IN answers anything but an error
+//@   ensures[C06,C09,C16] !typeis(result, "*Error") ==> exited(1)
 
 // BETWEEN: a missing operand makes it false
 //@ func evalBetween
@@ -283,3 +286,70 @@ package language
 //@     invariant forall k string :: {k in e.store} k in visited && !(k in exclude) ==> ApplyName(aliases, k) in item && fresh(item[ApplyName(aliases, k)])
 //@     invariant forall n string :: {item[n]} !fresh(item[n]) ==> item[n] == old(item[n])
 //@     invariant dom(e.store) == old(dom(e.store))
+
+// ---- C07: the action evaluators apply exactly their action ------------------------------------------------
+// (call-site clauses: what is handed to the environment operations contracted above)
+//@ func evalUpdateExpression
+//@   partial
+//@   requires env != nil && env.store != nil
+//@   callsite[C07] evalAction: arg.env == env && 0 <= rangeindex + 1 && rangeindex + 1 < len(node.Expressions) && typeis(node.Expressions[rangeindex + 1], "*ActionExpression") && arg.node == node.Expressions[rangeindex + 1].(*ActionExpression)
+
+//@ func evalAction
+//@   partial
+//@   requires env != nil && env.store != nil
+//@   callsite[C07] evalActionSet: node.Token.Type == SET && arg.node == node && arg.env == env
+//@   callsite[C07] evalActionAdd: node.Token.Type == ADD && arg.node == node && arg.env == env
+//@   callsite[C07] evalActionRemove: node.Token.Type == REMOVE && arg.node == node && arg.env == env
+//@   callsite[C07] evalActionDelete: node.Token.Type == DELETE && arg.node == node && arg.env == env
+
+// SET name = value: the value of the right-hand side is stored under the name
+//@ func evalActionSet
+//@   partial
+//@   requires env != nil && env.store != nil
+//@   callsite[C07] EvalUpdate: arg.n == node.Right && arg.env == env
+//@   callsite[C07] (*Environment).Set: typeis(node.Left, "*Identifier") && arg.e == env && arg.name == node.Left.(*Identifier).Value && arg.val == val
+
+// REMOVE name: the name is removed from the environment
+//@ func evalActionRemove
+//@   partial
+//@   requires env != nil && env.store != nil
+//@   callsite[C07] (*Environment).Remove: typeis(node.Left, "*Identifier") && arg.e == env && arg.name == node.Left.(*Identifier).Value
+
+// ADD / DELETE on a missing attribute store the operand; on a present one they hand the operand to the attribute's Add / Delete
+//@ func evalActionAdd
+//@   partial
+//@   requires env != nil && env.store != nil
+//@   callsite[C07] EvalUpdate: arg.n == node.Right && arg.env == env
+//@   callsite[C07] (*Environment).Set: typeis(node.Left, "*Identifier") && arg.e == env && arg.name == node.Left.(*Identifier).Value && arg.val == val
+//@ func evalActionDelete
+//@   partial
+//@   requires env != nil && env.store != nil
+//@   callsite[C07] EvalUpdate: arg.n == node.Right && arg.env == env
+//@   callsite[C07] (*Environment).Set: typeis(node.Left, "*Identifier") && arg.e == env && arg.name == node.Left.(*Identifier).Value && arg.val == val
+
+// ---- C09: the grammar of call arguments -------------------------------------------------------------------
+// nextToken shifts the look-ahead token into the current one
+//@ func (*Parser).nextToken
+//@   partial
+//@   requires p != nil
+//@   opaque (*Lexer).NextToken
+//@   ensures[C09] p.curToken == old(p.peekToken)
+
+//@ func (*Parser).peekTokenIs
+//@   inline
+//@ func (*Parser).expectPeek
+//@   partial
+//@   requires p != nil
+//@   ensures[C09] result == (old(p.peekToken.Type) == t)
+//@   ensures[C09] result ==> p.curToken == old(p.peekToken)
+
+// arguments are separated by commas: inside the list a token is consumed only to start the first argument, to step
+// onto a comma, to step past a comma, or to close the list; the list ends with the closing parenthesis
+//@ func (*Parser).parseCallArguments
+//@   partial
+//@   requires p != nil
+//@   callsite[C09] (*Parser).nextToken: arg.p == p && (len(args) == 0 || p.peekToken.Type == COMMA || p.curToken.Type == COMMA || p.peekToken.Type == RPAREN)
+//@   callsite[C09] (*Parser).expectPeek: arg.p == p && arg.t == RPAREN
+//@   ensures[C09] result != nil ==> p.curToken.Type == RPAREN
+//@   loop 1:
+//@     invariant len(args) >= 1
